@@ -16,7 +16,12 @@ META = {
 }
 
 # Defects demonstrated on the unchanged tree by this check (see the report to the integrator).
-PROPOSED_KNOWN = []   # the defects found by this check were fixed in /repo (known-findings.json, kind "fixed"); the "head" model is the code before those fixes, "fix" the code now
+PROPOSED_KNOWN = [
+    # the defects found earlier by this check were fixed in /repo (known-findings.json, kind "fixed"); the "head" model is the code before those fixes
+    {"kind": "known",
+     "signature": {"fam": "cut", "cause": "content-free-line-with-one-token-not-removed", "detail": "head-of-token-spanning-lines", "next": "text"},
+     "what": "parser.go ParseTemplateSource: the line that holds only spaces and the START of a {%% %%} spanning lines keeps its spaces when non-space text directly follows the end of the statement: ` {%% a := 1<LF>%%}x` renders ` x` (cutSpaces(firstText, text) gives up because `text`, which lies on a later line, is not blank)"},
+]
 
 FAMS = ["cut"]
 QUICK_ALPHA = {"x", "sp", "nl", "cmt", "cmtml", "if", "end", "show7", "stmtsml"}
@@ -24,9 +29,10 @@ THOROUGH_ALPHA = QUICK_ALPHA | {"var", "render", "rawnl", "shebang"}
 DEEP_ALPHA = QUICK_ALPHA - {"if", "end"}
 ALL_FMTS = ["txt", "html", "md", "js", "css", "json"]
 TEXT_NAMES = ["x", "sp", "tab", "nl", "spnl", "nlsp", "xnl", "crnl", "cr", "lb", "rb", "hash", "pct", "bom", "b"]
-SYNTAX_NAMES = ["show7", "shows", "render", "if", "end", "assign", "var", "stmts", "stmtsml", "cmt", "cmtn", "cmtml",
-                "raw", "rawm", "rawnl", "rawe"]
-INVS = ["EnvelopeHead", "EnvelopeFix", "SliceHead", "SliceFix", "SameAsFunctional"]
+SYNTAX_NAMES = ["show7", "shows", "render", "if", "ifml", "end", "assign", "var", "stmts", "stmtsml", "cmt", "cmtn", "cmtml",
+                "raw", "rawm", "rawnl", "rawe", "rawp", "rawps", "rawpn", "rawbb", "rawh"]
+RAW_NAMES = {"raw", "rawm", "rawnl", "rawe", "rawp", "rawps", "rawpn", "rawbb", "rawh"}
+INVS = ["EnvelopeHead", "EnvelopeFix", "NoOvercutHead", "NoOvercutFix", "SliceHead", "SliceFix", "SameAsFunctional"]
 
 
 def spaces(ctx):
@@ -100,10 +106,11 @@ def run(ctx, only_case=None):
         ctx.cov["model_drift"] = f"{drift} judged outputs differ from the implementation-shaped model under both transcriptions of the line block (diagnostic only)"
     if mc:
         cex = ctx.cov["model_counterexamples"]
-        n_env, n_sl = cex.get("Envelope" + variant, 0), cex.get("Slice" + variant, 0)
+        n_env, n_over, n_sl = cex.get("Envelope" + variant, 0), cex.get("NoOvercut" + variant, 0), cex.get("Slice" + variant, 0)
         if n_env or n_sl:
             ctx.cov["model_counterexample"] = (f"the transcription that matches the code ({variant.lower()}) has {n_env} sequences whose model output is "
-                                               f"outside the envelope and {n_sl} with overlapping cuts (design-level, diagnostic; the verdict is from the real code)")
+                                               f"outside the envelope ({n_over} of them remove text that must stay, the others keep a one-token content-free line) "
+                                               f"and {n_sl} with overlapping cuts (design-level, diagnostic; the verdict is from the real code)")
     # ---- reproduction guard (the failing cases again in a fresh driver process) and sensitivity self-test
     # (corrupted observations must be rejected), judged together by one more run of the same Trace spec
     cobs = []
@@ -146,7 +153,7 @@ def model_check(ctx, k, alpha, maxlen, genlen):
     """One TLC run: exhaustive exploration of the cut machine over the sequence space + export of the
     balanced sequences (names) and of the piece catalogue."""
     wd = ctx.stage(f"mc{k}", FAMS)
-    c = {"MaxLen": maxlen, "MCAlpha": alpha, "GenLen": genlen, "GenAlpha": alpha}
+    c = {"MaxLen": maxlen, "MCAlpha": alpha, "GenLen": genlen, "GenAlpha": alpha, "WideLen": 2 if genlen and k == 0 else 0}
     rig.write_cfg(wd / "MC_Cut.cfg", constants=c, invariants=INVS)
     r = ctx.tlc(wd, "MC_Cut", workers=max(2, rig.NCPU // 2), timeout=ctx.pick(300, 840), coverage=not ctx.quick, extra=["-continue"])
     done = re.search(r"\d+ states generated, \d+ distinct states found, 0 states left on queue", r.out)
@@ -172,10 +179,14 @@ def assemble(ctx, catalogue, seqs):
     """TLC's judgeable name sequences x formats, plus seeded random longer sequences over the whole catalogue.
     Only names are chosen here; bytes come from TLC's catalogue, verdicts from Trace_Cut."""
     cases, n = [], 0
-    for ns in seqs:
-        for f in ALL_FMTS:
-            # every sequence in .txt; in the other five formats those of length <= 2 (quick) / <= 3 (thorough)
+    core = set().union(*[a for a, _ in spaces(ctx)])
+    for q, ns in enumerate(seqs):
+        for fi, f in enumerate(ALL_FMTS):
+            # every sequence in .txt; in the other five formats those of length <= 2 (quick) / <= 3 (thorough);
+            # quick: a pair over the whole catalogue that is not over the tier's classes gets one other format, in rotation
             if f != "txt" and len(ns) > ctx.pick(2, 3):
+                continue
+            if f != "txt" and ctx.quick and not set(ns) <= core and fi != 1 + q % 5:
                 continue
             if f in ("js", "css", "json") and "shows" in ns:
                 continue
@@ -198,7 +209,7 @@ def assemble(ctx, catalogue, seqs):
                 if depth == 0:
                     continue
                 depth -= 1
-            if nm == "if":
+            if nm in ("if", "ifml"):
                 if len(ns) + 2 + depth > ln:
                     continue
                 depth += 1
@@ -259,7 +270,7 @@ def nontrivial(o):
     if o["outcome"] != "ok":
         return False
     ns = set(o["names"])
-    return bool(ns & {"raw", "rawm", "rawnl", "rawe", "show7", "shows", "render"}) or bool(ns & set(SYNTAX_NAMES + ["shebang"])) and bool(ns & WS_NAMES)
+    return bool(ns & (RAW_NAMES | {"show7", "shows", "render"})) or bool(ns & set(SYNTAX_NAMES + ["shebang"])) and bool(ns & WS_NAMES)
 
 
 def count(obs, key):
